@@ -264,12 +264,16 @@ func TestC19ResponseHeaderTimeout(t *testing.T) {
 		// more simultaneous requests than idle connections per host must not queue behind each other
 		if slow && rapid.Bool().Draw(t, "burst") {
 			cfg.Proxy.MaxConn = rapid.IntRange(1, 2).Draw(t, "maxconn_small")
+			if T < 300*time.Millisecond {
+				T += 200 * time.Millisecond // queueing behind K/maxconn rounds must stand out from the slack
+				D = T * 3
+			}
 			cfg.Proxy.ResponseHeaderTimeout = T
 			transport.SetConfig(cfg)
 			tg := &route.Target{Service: "svc", URL: upURL}
 			p := &proxy.HTTPProxy{Transport: transport.NewTransport(nil), InsecureTransport: transport.NewTransport(&tls.Config{InsecureSkipVerify: true}), Lookup: func(*http.Request) *route.Target { return tg }}
 			atomic.StoreInt64(&delay, int64(D))
-			const K = 5
+			const K = 16
 			type r struct {
 				code int
 				took time.Duration
@@ -288,7 +292,7 @@ func TestC19ResponseHeaderTimeout(t *testing.T) {
 			for i := 0; i < K; i++ {
 				x := <-res
 				hx.Eval()
-				if x.code != 504 || x.took > T+1500*time.Millisecond {
+				if x.code != 504 || x.took > T+1000*time.Millisecond {
 					t.Fatalf("%d simultaneous requests to a slow upstream with proxy.maxconn=%d: one was answered %d after %v, want 504 after about %v", K, cfg.Proxy.MaxConn, x.code, x.took, T)
 				}
 			}
